@@ -15,6 +15,7 @@ package main
 // structurally by the term layer (TermTable.Eq), which is the same fact.
 
 import (
+	"crypto/ed25519"
 	"crypto/sha256"
 	"fmt"
 	"strconv"
@@ -372,4 +373,70 @@ func (w *Worker) acyclicityHints() []*Term {
 
 func isShaApp(name string) bool {
 	return strings.HasPrefix(name, "sha_") && !strings.Contains(name, "_inv")
+}
+
+// ---- Ed25519: key derivation is real (concrete seeds); signatures are
+// abstract: Sign hands out a distinct constant per distinct message and Verify
+// accepts exactly the pairs handed out (unforgeability; one key pair per run).
+type edSigned struct {
+	msg Str
+	sig []byte
+}
+
+func (in *Interp) edTable() *[]edSigned {
+	t, _ := in.pathState["ed25519"].(*[]edSigned)
+	if t == nil {
+		t = &[]edSigned{}
+		in.pathState["ed25519"] = t
+	}
+	return t
+}
+
+func init() {
+	reg("crypto/ed25519.NewKeyFromSeed", func(in *Interp, c *frame, fn *ssa.Function, a []Value) Value {
+		s := bytesToStr(a[0])
+		if !s.IsConcrete() {
+			panic(unsupported("ed25519.NewKeyFromSeed with a symbolic seed"))
+		}
+		key := ed25519.NewKeyFromSeed([]byte(s.Concrete()))
+		ts := make([]*Term, len(key))
+		for i, b := range key {
+			ts[i] = mkConst(8, uint64(b))
+		}
+		return termsToSlice(ts)
+	})
+	reg("crypto/ed25519.Sign", func(in *Interp, c *frame, fn *ssa.Function, a []Value) Value {
+		msg := bytesToStr(a[1])
+		tab := in.edTable()
+		for _, e := range *tab {
+			if e.msg.Len() == msg.Len() && in.decide(in.strEq(e.msg, msg)) {
+				return termsToSlice(constBytes(e.sig))
+			}
+		}
+		sig := make([]byte, 64)
+		n := len(*tab) + 1
+		sig[0], sig[1], sig[2], sig[3] = 0xED, 0x25, byte(n>>8), byte(n)
+		*tab = append(*tab, edSigned{msg, sig})
+		in.intrSeen["crypto/ed25519.Sign (abstract: distinct constant per message)"] = true
+		return termsToSlice(constBytes(sig))
+	})
+	reg("crypto/ed25519.Verify", func(in *Interp, c *frame, fn *ssa.Function, a []Value) Value {
+		msg, sig := bytesToStr(a[1]), bytesToStr(a[2])
+		res := tFalse
+		for _, e := range *in.edTable() {
+			if e.msg.Len() != msg.Len() || len(e.sig) != sig.Len() {
+				continue
+			}
+			res = in.tt.Or(res, in.tt.And(in.strEq(e.msg, msg), in.strEq(mkStr(string(e.sig)), sig)))
+		}
+		return res
+	})
+}
+
+func constBytes(b []byte) []*Term {
+	ts := make([]*Term, len(b))
+	for i, x := range b {
+		ts[i] = mkConst(8, uint64(x))
+	}
+	return ts
 }
